@@ -358,3 +358,351 @@ def task_c20_cross(ident):
             return
         run.oblige("C20|eq[%s vs %s]/different-kinds-compare-unequal" % (cls.name, oc.name), z3.Not(truth_term(I, r)))
     return task
+
+
+# =====================================================================================================
+# C13 -- the parser accepts only protocol-conformant messages
+# =====================================================================================================
+# oracle: the protocol's vocabularies and syntax (INDI white paper), independent of indi/message/const.py
+VOCAB = {
+    "State": ("Idle", "Ok", "Busy", "Alert"),
+    "Permissions": ("ro", "wo", "rw"),
+    "SwitchRule": ("OneOfMany", "AtMostOne", "AnyOfMany"),
+    "SwitchState": ("On", "Off"),
+    "BLOBEnable": ("Never", "Also", "Only"),
+}
+# constrained fields per tag: field -> vocabulary
+FIELD_VOCAB = {
+    "defTextVector": {"state": "State", "perm": "Permissions"},
+    "defNumberVector": {"state": "State", "perm": "Permissions"},
+    "defSwitchVector": {"state": "State", "perm": "Permissions", "rule": "SwitchRule"},
+    "defBLOBVector": {"state": "State", "perm": "Permissions"},
+    "defLightVector": {"state": "State"},
+    "setTextVector": {"state": "State"}, "setNumberVector": {"state": "State"}, "setSwitchVector": {"state": "State"},
+    "setBLOBVector": {"state": "State"}, "setLightVector": {"state": "State"},
+    "enableBLOB": {"value": "BLOBEnable"},
+    "oneLight": {"value": "State"},
+    "defSwitch": {"value": "SwitchState"}, "oneSwitch": {"value": "SwitchState"},
+    "defLight": {"value": "State"},
+}
+# attributes the protocol requires (must be present, i.e. not None, on every parsed message)
+REQUIRED = {
+    "defTextVector": ("device", "name", "state", "perm"), "defNumberVector": ("device", "name", "state", "perm"),
+    "defSwitchVector": ("device", "name", "state", "perm", "rule"), "defBLOBVector": ("device", "name", "state", "perm"),
+    "defLightVector": ("device", "name", "state"),
+    "setTextVector": ("device", "name"), "setNumberVector": ("device", "name"), "setSwitchVector": ("device", "name"),
+    "setBLOBVector": ("device", "name"), "setLightVector": ("device", "name"),
+    "newTextVector": ("device", "name"), "newNumberVector": ("device", "name"), "newSwitchVector": ("device", "name"),
+    "newBLOBVector": ("device", "name"),
+    "enableBLOB": ("device", "value"), "delProperty": ("device",), "getProperties": ("version",),
+    "message": (), "pingRequest": ("uid",), "pingReply": ("uid",), "oneLight": ("name", "value"),
+    "defText": ("name",), "defNumber": ("name", "format", "min", "max", "step"), "defSwitch": ("name", "value"),
+    "defLight": ("name", "value"), "defBLOB": ("name",),
+    "oneText": ("name",), "oneNumber": ("name",), "oneSwitch": ("name", "value"), "oneBLOB": ("name", "size", "format"),
+}
+# child kind each vector requires
+CHILD_TAG = {
+    "defTextVector": "defText", "defNumberVector": "defNumber", "defSwitchVector": "defSwitch", "defBLOBVector": "defBLOB",
+    "defLightVector": "defLight", "setTextVector": "oneText", "setNumberVector": "oneNumber", "setSwitchVector": "oneSwitch",
+    "setBLOBVector": "oneBLOB", "setLightVector": "oneLight", "newTextVector": "oneText", "newNumberVector": "oneNumber",
+    "newSwitchVector": "oneSwitch", "newBLOBVector": "oneBLOB",
+}
+NUMBER_TAGS = ("defNumber", "oneNumber")
+
+
+THOROUGH = __import__("os").environ.get("VERIF_TIER") == "thorough"
+
+
+def number_language():
+    """INDI number syntax (generous superset of what a peer may send): integer, decimal,
+    exponent notation, or sexagesimal with ':' ';' or blank separators."""
+    d = z3.Range("0", "9")
+    ds = z3.Plus(d)
+    sign = z3.Option(z3.Union(z3.Re("-"), z3.Re("+")))
+    dec = z3.Union(z3.Concat(ds, z3.Option(z3.Concat(z3.Re("."), z3.Star(d)))), z3.Concat(z3.Re("."), ds))
+    exp = z3.Option(z3.Concat(z3.Union(z3.Re("e"), z3.Re("E")), sign, ds))
+    sep = z3.Union(z3.Re(":"), z3.Re(";"), z3.Re(" "))
+    field = z3.Concat(ds, z3.Option(z3.Concat(z3.Re("."), z3.Star(d))))
+    sexa = z3.Concat(sign, ds, sep, field, z3.Option(z3.Concat(sep, field)))
+    return z3.Union(z3.Concat(sign, dec, exp), sexa)
+
+
+def in_vocab(t, vocab):
+    return z3.Or(*[t == VStr(z3.StringVal(x)) for x in VOCAB[vocab]])
+
+
+def str_of(I, v):
+    from pyvc.builtins_model import py_str_of
+    return get_s(I.to_term(py_str_of(I, v)))
+
+
+def conformance(I, obj, tag):
+    """list of (clause-name, formula): the constrained fields of a parsed object per the oracle."""
+    out = []
+    f = obj.fields
+    for fld, voc in FIELD_VOCAB.get(tag, {}).items():
+        if fld not in f:
+            out.append(("%s-field-exists" % fld, z3.BoolVal(False)))
+            continue
+        out.append(("%s-in-%s-vocabulary" % (fld, voc), in_vocab(I.to_term(f[fld]), voc)))
+    for fld in REQUIRED.get(tag, ()):
+        if fld not in f:
+            out.append(("required-%s-present" % fld, z3.BoolVal(False)))
+        else:
+            out.append(("required-%s-present" % fld, z3.Not(is_none(I.to_term(f[fld])))))
+    if tag in NUMBER_TAGS:
+        v = f.get("value")
+        t = I.to_term(v)
+        out.append(("value-has-number-syntax", z3.Or(is_none(t), z3.InRe(str_of(I, v), number_language()))))
+    return out
+
+
+def tag_of(I, cls):
+    return I.call(I.getattr(cls, "tag_name"), [], {})
+
+
+def c13_witness(I, terms):
+    def w(m):
+        out = {"replay_kind": "codec.parse"}
+        for k, t in terms.items():
+            if isinstance(t, (str, int, bool, type(None))):
+                out[k] = t
+                continue
+            v = m.eval(I.to_term(t), model_completion=True)
+            if z3.is_true(m.eval(is_str(v), model_completion=True)):
+                out[k] = m.eval(get_s(v), model_completion=True).as_string()
+            elif str(v) == "VNone":
+                out[k] = None
+            else:
+                out[k] = str(v)
+        return out
+    return w
+
+
+def task_c13_dictionary(vocab):
+    def task(I, run):
+        ch = I.import_module("indi.message.checks")
+        const = I.import_module("indi.message.const")
+        cls = const.ns[vocab]
+        v = I.fresh_sym("v")
+        run.explorer.witness = c13_witness(I, {"value": v, "vocab": vocab, "what": "dictionary"})
+        f = ch.ns["dictionary"]
+        try:
+            r = I.call(f, [v, cls], {})
+        except IRaise as e:
+            if e.value.cls.name != "ValueError":
+                run.fail("C13|checks.dictionary[%s]/raises-only-ValueError" % vocab, "raised %s" % e)
+                return
+            run.oblige("C13|checks.dictionary[%s]/rejects-only-foreign-values" % vocab, z3.Not(in_vocab(v.term, vocab)))
+            return
+        run.oblige("C13|checks.dictionary[%s]/accepts-only-the-vocabulary" % vocab, in_vocab(v.term, vocab))
+        run.oblige("C13|checks.dictionary[%s]/returns-the-value" % vocab, I.to_term(r) == v.term)
+        run.canary("C13|canary[dictionary %s]/accepts-nothing" % vocab, z3.BoolVal(False))
+    return task
+
+
+def _children_loop(I, ordinal, it):
+    g = I.ghost
+    if it is g.get("children_arg"):
+        return _CHILDREN_LOOP
+    return None
+
+
+def _children_inv(ctx):
+    g = ctx.ghost
+    seq = g["children_arg"]
+    K = ctx.env.vars.get("child_class")      # the class the code actually checks against
+    if not isinstance(K, IClass):
+        raise OutOfReach("checks.children: child_class is not a class")
+    j = z3.Int("j")
+    inst = ctx.interp.world.isinstance_one(ctx.interp, Sym(z3.Select(seq.elt, j)), K)
+    inst = z3.BoolVal(inst) if isinstance(inst, bool) else inst
+    return [("all-visited-children-are-of-the-required-kind", forall(j, implies(z3.And(j >= 0, j < ctx.i), inst)))]
+
+
+_CHILDREN_LOOP = LoopContract(_children_inv, None, props="C13", label="children")
+CHILDREN = Contract(CHECKS_FILE, "children", loop_selector=_children_loop)
+
+
+def task_c13_children(ident):
+    """checks.children(value, K): any sequence of arbitrary objects."""
+    def task(I, run):
+        ch = I.import_module("indi.message.checks")
+        K = find_class(I, ident)
+        n = I.fresh("n", IntS)
+        run.assume(n >= 0)
+        seq = SList(n, I.fresh("items", A_IV), None, "value")
+        I.ghost.update(children_arg=seq, children_class=K)
+        I.contracts[CHILDREN.key] = CHILDREN
+        j = z3.Int("j")
+        inst = I.world.isinstance_one(I, Sym(z3.Select(seq.elt, j)), K)
+        allinst = forall(j, implies(z3.And(j >= 0, j < n), inst))
+        try:
+            r = I.call(ch.ns["children"], [seq, K], {})
+        except IRaise as e:
+            if e.value.cls.name != "ValueError":
+                run.fail("C13|checks.children[%s]/raises-only-ValueError" % K.name, "raised %s" % e)
+            return
+        run.oblige("C13|checks.children[%s]/accepts-only-children-of-the-required-kind" % K.name, allinst)
+        run.oblige("C13|checks.children[%s]/returns-the-sequence" % K.name, z3.BoolVal(r is seq))
+    return task
+
+
+def task_c13_ctor(ident):
+    """A vector constructor given an arbitrary sequence of arbitrary objects as children and
+    arbitrary attribute values: either it raises or the message is conformant -- in particular
+    every child is of the kind the protocol requires for this vector (any number of children)."""
+    def task(I, run):
+        cls = find_class(I, ident)
+        msgs, parts = classes(I)
+        tag = tag_of(I, cls)
+        names, _ = init_params(cls)
+        n = I.fresh("n", IntS)
+        run.assume(n >= 0)
+        seq = SList(n, I.fresh("items", A_IV), None, "children")
+        I.ghost.update(children_arg=seq)
+        I.contracts[CHILDREN.key] = CHILDREN
+        kw = {p: wire_val(I, "arg_" + p) for p in names if p != "children"}
+        kw["children"] = seq
+        try:
+            m = I.call(cls, [], kw)
+        except IRaise:
+            return
+        want = [p for p in parts if tag_of(I, p) == CHILD_TAG[tag]]
+        if len(want) != 1:
+            run.fail("C13|ctor[%s]/required-child-kind-exists" % tag, "no unique part class with tag %s" % CHILD_TAG[tag])
+            return
+        j = z3.Int("j")
+        inst = I.world.isinstance_one(I, Sym(z3.Select(seq.elt, j)), want[0])
+        run.oblige("C13|ctor[%s]/every-child-is-of-the-required-kind" % tag, forall(j, implies(z3.And(j >= 0, j < n), inst)))
+        for nm, fml in conformance(I, m, tag):
+            if nm.startswith("required-"):
+                continue        # presence is a property of the parser's keyword binding (task_c13_parse)
+            run.oblige("C13|ctor[%s]/%s" % (tag, nm), fml)
+    return task
+
+
+def task_c13_number():
+    def task(I, run):
+        ch = I.import_module("indi.message.checks")
+        v = I.fresh_sym("v")
+        run.assume(z3.Or(is_none(v.term), is_str(v.term)))
+        run.explorer.witness = c13_witness(I, {"value": v, "what": "number"})
+        try:
+            r = I.call(ch.ns["number"], [v], {})
+        except IRaise as e:
+            if e.value.cls.name != "ValueError":
+                run.fail("C13|checks.number/raises-only-ValueError", "raised %s" % e)
+            return
+        # (the regexps' `$` tolerates one trailing newline; the parser strips text before it gets here --
+        #  the tight clause is proved on from_xml's result, see task_c13_parse)
+        run.oblige("C13|checks.number/accepts-only-number-syntax",
+                   z3.Or(is_none(v.term), z3.InRe(get_s(v.term), z3.Concat(number_language(), z3.Option(z3.Re("\n"))))))
+        run.oblige("C13|checks.number/returns-the-value", I.to_term(r) == v.term)
+    return task
+
+
+def xml_attrib(I, names, label):
+    """attribute map of an arbitrary XML element, restricted to the names the constructors
+    can see (every other attribute lands in **junk): each present or absent, any string."""
+    d = IDict()
+    for p in names:
+        v = I.fresh_sym("%s_attr_%s" % (label, p))
+        I.prover.assume(is_str(v.term))
+        d.d[p] = Maybe(I.fresh("%s_has_%s" % (label, p), z3.BoolSort()), v)
+    return d
+
+
+def xml_text(I, label):
+    t = I.fresh_sym("%s_text" % label)
+    I.prover.assume(z3.Or(is_none(t.term), is_str(t.term)))
+    return t
+
+
+def task_c13_parse(ident, nchildren):
+    """IndiMessage.from_xml on an arbitrary element carrying this class's tag: either the
+    parse fails or the result is conformant."""
+    def task(I, run):
+        from pyvc.stdlib_models import XElem
+        base = I.import_module("indi.message.base")
+        I.import_module("indi.message")
+        cls = find_class(I, ident)
+        msgs, parts = classes(I)
+        is_msg = cls in msgs
+        tag = tag_of(I, cls)
+        names, _ = init_params(cls)
+        attr_names = list(dict.fromkeys(list(names) + ["children", "value", "zz_other"]))
+        x = XElem(tag, xml_attrib(I, attr_names, "x"), xml_text(I, "x"))
+        wit = {"tag": tag, "what": "parse", "text": x.text}
+        for k, mv in x.attrib.d.items():
+            wit["attr:" + k] = Sym(z3.If(mv.cond, mv.value.term, VNone))
+        if is_msg:
+            for c in range(nchildren):
+                kinds = list(parts)
+                if not THOROUGH:
+                    # quick tier: the required kind and one foreign kind
+                    req = [p for p in parts if tag_of(I, p) == CHILD_TAG.get(tag)]
+                    other = [p for p in parts if p not in req][:1]
+                    kinds = req + other
+                pk = run.choice(len(kinds), "child kind")
+                pc = kinds[pk]
+                pn, _ = init_params(pc)
+                cx = XElem(tag_of(I, pc), xml_attrib(I, list(dict.fromkeys(list(pn) + ["value", "zz_other"])), "c%d" % c), xml_text(I, "c%d" % c))
+                x.children.append(cx)
+                wit["child%d" % c] = tag_of(I, pc)
+        run.explorer.witness = c13_witness(I, wit)
+        label = "%s,%d children" % (tag, nchildren) if is_msg else tag
+        root = base.ns["IndiMessage"] if is_msg else base.ns["IndiMessagePart"]
+        try:
+            r = I.call(I.getattr(root, "from_xml"), [x], {})
+        except IRaise:
+            run.cover("cover[%s]/rejected" % label)
+            return          # parsing failed: allowed
+        run.cover("cover[%s]/accepted" % label)
+        if not isinstance(r, IObject):
+            run.fail("C13|parse[%s]/yields-a-message-object" % label, "from_xml returned %r" % (r,))
+            return
+        run.oblige("C13|parse[%s]/kind-matches-the-tag" % label, z3.BoolVal(tag_of(I, r.cls) == tag))
+        for nm, fml in conformance(I, r, tag):
+            run.oblige("C13|parse[%s]/%s" % (label, nm), fml)
+        if tag in CHILD_TAG:
+            ch = r.fields.get("children")
+            items = list(ch) if isinstance(ch, tuple) else (list(ch.items) if isinstance(ch, IList) else None)
+            if isinstance(ch, (Sym, str)):
+                # an XML *attribute* named "children": no child elements at all -- must behave as an empty sequence
+                lt = z3.Length(get_s(I.to_term(ch)))
+                run.oblige("C13|parse[%s]/children-attribute-is-not-mistaken-for-children" % label, lt == 0)
+            elif items is None:
+                run.fail("C13|parse[%s]/children-are-a-sequence-of-parts" % label, "children is %r" % (ch,))
+            else:
+                for n_, c in enumerate(items):
+                    okc = isinstance(c, IObject) and tag_of(I, c.cls) == CHILD_TAG[tag]
+                    run.oblige("C13|parse[%s]/child-%d-is-of-the-required-kind" % (label, n_), z3.BoolVal(okc))
+                    if okc:
+                        for nm, fml in conformance(I, c, CHILD_TAG[tag]):
+                            run.oblige("C13|parse[%s]/child-%d/%s" % (label, n_, nm), fml)
+        run.canary("C13|canary[%s]/nothing-is-ever-accepted" % label, z3.BoolVal(False))
+    return task
+
+
+def task_c13_unknown_tag():
+    def task(I, run):
+        from pyvc.stdlib_models import XElem
+        base = I.import_module("indi.message.base")
+        I.import_module("indi.message")
+        msgs, parts = classes(I)
+        which = run.choice(2, "message or part")
+        known = [tag_of(I, c) for c in (msgs if which == 0 else parts)]
+        t = I.fresh_sym("tag")
+        run.assume(is_str(t.term))
+        for k in known:
+            run.assume(t.term != VStr(z3.StringVal(k)))
+        x = XElem(t, IDict(), None)
+        root = base.ns["IndiMessage"] if which == 0 else base.ns["IndiMessagePart"]
+        try:
+            I.call(I.getattr(root, "from_xml"), [x], {})
+        except IRaise:
+            return
+        run.fail("C13|parse[unknown tag]/is-rejected", "an element whose tag names no protocol %s was parsed" % ("message" if which == 0 else "part"),
+                 witness=c13_witness(I, {"tag": t, "what": "parse"}))
+    return task
